@@ -26,9 +26,13 @@ inductive Act where
 def Act.kind : Act → Char | .mk k _ => k
 def Act.sub : Act → List Act | .mk _ s => s
 
-def isKind (c : Char) : Bool := c == 'R' || c == 'r' || c == 'N' || c == 'F' || c == 'f' || c == 'n' || c == 'P'
+def isKind (c : Char) : Bool :=
+  c == 'R' || c == 'r' || c == 'N' || c == 'F' || c == 'f' || c == 'n' || c == 'P' || c == 'X' || c == 'x' || c == 'y'
 
-/-- recursive descent over `R(..)rNF(..)fn`; returns the items and the unread rest -/
+/-- node-level `app.Request` (X: with callback, x: without) / `app.Notify` (y) whose route finds no target -/
+def isNoRoute (c : Char) : Bool := c == 'X' || c == 'x' || c == 'y'
+
+/-- recursive descent over `R(..)rNF(..)fnX(..)xy`; returns the items and the unread rest -/
 partial def parseActs (cs : List Char) (acc : List Act) : List Act × List Char :=
   match cs with
   | [] => (acc.reverse, [])
@@ -39,7 +43,7 @@ partial def parseActs (cs : List Char) (acc : List Act) : List Act × List Char 
       | '(' :: r2 =>
         let (sub, r3) := parseActs r2 []
         let r4 := match r3 with | ')' :: r => r | r => r
-        let sub := if c == 'R' || c == 'F' then sub else []
+        let sub := if c == 'R' || c == 'F' || c == 'X' then sub else []
         parseActs r4 (.mk c sub :: acc)
       | _ => parseActs rest (.mk c [] :: acc)
 
@@ -87,10 +91,11 @@ partial def runScript (d : D) (acts : List Act) : D :=
 partial def doIssue (d : D) (a : Act) (route : String) : D :=
   let inst := d.s.ninst
   let (isReq, serOk, hasCb) := flags a.kind
-  let s' := issue d.s isReq serOk hasCb
+  -- without a route the call never reaches `doRequestEx` (model: `noroute`); with one it is `issue`
+  let s' := if isNoRoute a.kind then noroute d.s (a.kind != 'y') (a.kind == 'X') else issue d.s isReq serOk hasCb
   let d' : D := { d with
     s := s', scripts := (inst, a.sub) :: d.scripts, routes := (inst, route) :: d.routes,
-    sentId := if serOk then (inst, if isReq then s'.nextId else 0) :: d.sentId else d.sentId,
+    sentId := if serOk && !isNoRoute a.kind then (inst, if isReq then s'.nextId else 0) :: d.sentId else d.sentId,
     nextFire := if !d.s.armed && s'.armed then s'.now + 1000 else d.nextFire,
     iss := s!"{inst}:{a.kind}@{d.s.now}" :: d.iss }
   if s'.nest > d.s.nest then
@@ -129,6 +134,7 @@ def classOf : Outcome → String
   | .decodeErr => "err"
   | .timeout => "timeout"
   | .serErr => "err"
+  | .noService => "noservice"
 
 def joinC (l : List String) : String := ",".intercalate l
 
@@ -163,7 +169,22 @@ def payloadOf (kind : String) (w : Nat) (nz : Bool := true) : Option Payload :=
   | "empty" => some (.ok (some emptySentinel))
   | "err" => if nz then some (.err w) else some (.ok none)   -- `ErrCode == 0` is not an error reply
   | "bad" => some .bad
+  | "badtype" => some .badType   -- a type name nobody registered (D22)
   | _ => none
+
+/-- the `id=<int32>` of an injected raw response: a negative id (never allocated: `AllocReqId` returns 1..MaxReqId)
+is represented by its two's-complement value, which no table ever holds -/
+def wireId (ws : List String) : Option Nat :=
+  match kv ws "id" with
+  | none => none
+  | some v =>
+    if v.startsWith "-" then
+      match (v.drop 1).toString.toNat? with
+      | some n => if n == 0 then some 0 else if n ≤ 2147483648 then some (4294967296 - n) else none
+      | none => none
+    else match v.toNat? with
+      | some n => if n ≤ 2147483647 then some n else none
+      | none => none
 
 def parseNatList (s : String) : List Nat := (s.splitOn ",").filterMap String.toNat?
 
@@ -209,14 +230,14 @@ def stepModel (d : D) (line : String) : D × String :=
     | "preq" =>
       -- the peer with asynchronous API handlers is, for the requester, one more peer that answers when told to
       match parseActs ((kv ws "s").getD "").toList [] with
-      | ([a], _) => if a.kind == 'P' then (d, "bad-op") else observe (doIssue d a "park.Park") "ok"
+      | ([a], _) => if a.kind == 'P' || isNoRoute a.kind then (d, "bad-op") else observe (doIssue d a "park.Park") "ok"
       | _ => (d, "bad-op")
     | "areq" =>
       -- node-level `app.Request` routed to a peer: the same `RequestEx`; the echo peer answers at once
       let peer := (kv ws "peer").getD ""
       match parseActs ((kv ws "s").getD "").toList [] with
       | ([a], _) =>
-        if a.kind == 'P' || a.kind == 'N' || a.kind == 'n' || (peer != "echo" && peer != "hold") then (d, "bad-op") else
+        if a.kind == 'P' || a.kind == 'N' || a.kind == 'n' || isNoRoute a.kind || (peer != "echo" && peer != "hold") then (d, "bad-op") else
         let inst := d.s.ninst
         let d := doIssue d a "remote.hello"
         let d := if peer == "echo" then
@@ -228,28 +249,24 @@ def stepModel (d : D) (line : String) : D × String :=
       | _ => (d, "bad-op")
     | "anotify" =>
       let peer := (kv ws "peer").getD ""
-      if peer == "none" then
-        let now := d.s.now
-        let (d, o) := observe d "ok"
-        (d, o.replace "iss= " s!"iss=x:X@{now} ")
+      if peer == "none" then observe (doIssue d (.mk 'y' []) "") "ok"
       else if peer != "echo" && peer != "hold" then (d, "bad-op")
       else observe (doIssue d (.mk (if kv ws "ser" == some "0" then 'n' else 'N') []) "remote.hello") "ok"
     | "noroute" =>
-      let now := d.s.now
-      let cb := if kvNat ws "cb" == some 1 then s!"x:noservice@{now}" else ""
-      let (d, o) := observe d "ok"
-      -- node-level `app.Request` without a routable target: nothing reaches the service core
-      (d, (o.replace "iss= " s!"iss=x:X@{now} ").replace "cb= " s!"cb={cb} ")
+      -- node-level `app.Request` without a routable target: nothing reaches the service core (model: `noroute`)
+      observe (doIssue d (.mk (if kvNat ws "cb" == some 1 then 'X' else 'x') []) "") "ok"
     | "deliver" =>
       match kvNat ws "k", payloadOf ((kv ws "kind").getD "") ((kvNat ws "w").getD 0) (codeNonzero ws) with
       | some k, some p =>
         match lookupD k d.sentId with
         | none => observe d "nopeer"
-        | some 0 => observe d "ok"                     -- `ResponseEx`: a notification is never answered
-        | some id => observe (settle { d with s := response d.s id p }) "ok"
+        | some id =>
+          -- `ResponseEx` (model: `respondsTo`): a notification is never answered
+          if !respondsTo id true then observe d "ok"
+          else observe (settle { d with s := response d.s id p }) "ok"
       | _, _ => (d, "bad-op")
     | "inject" =>
-      match kvNat ws "id", payloadOf ((kv ws "kind").getD "") ((kvNat ws "w").getD 0) (codeNonzero ws) with
+      match wireId ws, payloadOf ((kv ws "kind").getD "") ((kvNat ws "w").getD 0) (codeNonzero ws) with
       | some id, some p => observe (settle { d with s := response d.s id p }) "ok"
       | _, _ => (d, "bad-op")
     | "adv" =>
@@ -359,8 +376,15 @@ def specStep (st : SS) (line : String) : SS × String :=
         | [] => if (kvNat os "left").getD 0 != 0 then (st, viol "pending-residue" "crowd members left entries behind" op) else (st, "ok")
     | some opk =>
       if st.poisoned || os.head? == some "bad-op" then (st, "ok") else
+      -- D22: a reply whose type cannot be decoded must complete the request it answers, once, with an error;
+      -- anything else after such a reply (no completion, a restart of the requester, a wrong class) is that defect
+      let badType := (opk == "deliver" || opk == "inject") && kv ws "kind" == some "badtype"
+      if os.head? == some "restarted" then
+        ({ st with poisoned := true },
+          if badType then viol "undecodable-reply-crashes-requester" "the requester was restarted as a fresh service (ids restart at 1, pending requests orphaned)" op
+          else viol "crash" "the requester crashed and was restarted as a fresh service" op) else
       if (obs.splitOn "panic").length > 1 || (obs.splitOn "<no-observation").length > 1 then
-        ({ st with poisoned := true }, viol "crash" "the requester crashed or hung" op) else
+        ({ st with poisoned := true }, viol (if badType then "undecodable-reply-crashes-requester" else "crash") "the requester crashed or hung" op) else
       let now := if opk == "adv" then st.now + (kvNat ws "dt").getD 0 + (if ((kvNat ws "flood").getD 0) > 0 then 2 else 0) else st.now
       -- 1. instances issued during the op, ids the peer saw
       let newInsts : List Inst := (listOf os "iss").filterMap fun e =>
@@ -401,7 +425,7 @@ def specStep (st : SS) (line : String) : SS × String :=
             | some id => if id != 0 && os.head? == some "ok" then some (id, cls) else none
             | none => none
           | none => none
-        else if opk == "inject" then (kvNat ws "id").map (·, cls)
+        else if opk == "inject" then (wireId ws).map (·, cls)
         else match echoInst with
           | some e => e.id.map (·, s!"ok:{7000 + e.tag}")
           | none => none
@@ -416,21 +440,22 @@ def specStep (st : SS) (line : String) : SS × String :=
         | [] => (insts, none)
         | c :: rest =>
           if c.foreign then (insts, some (viol "callback-foreign-context" s!"callback of {c.tag} ran outside the service goroutine" op)) else
-          if c.tag == "x" then
-            if opk == "noroute" && kvNat ws "cb" == some 1 && c.cls == "noservice" && !xSeen then go rest insts true
-            else (insts, some (viol "callback-wrong-reply" s!"unexpected no-route completion {c.cls}" op))
-          else match c.tag.toNat? with
+          match c.tag.toNat? with
           | none => (insts, some (viol "callback-wrong-reply" s!"callback for unknown instance {c.tag}" op))
           | some tag =>
             match getInst insts tag with
             | none => (insts, some (viol "callback-wrong-reply" s!"callback for unknown instance {tag}" op))
             | some i =>
               if i.cbSeen then (insts, some (viol "callback-twice" s!"instance {tag} completed again with {c.cls}" op)) else
-              if i.kind != 'R' && i.kind != 'F' then (insts, some (viol "callback-wrong-reply" s!"instance {tag} has no callback but {c.cls} was delivered" op)) else
+              if i.kind != 'R' && i.kind != 'F' && i.kind != 'X' then (insts, some (viol "callback-wrong-reply" s!"instance {tag} has no callback but {c.cls} was delivered" op)) else
               let ok : Option String :=
                 if i.kind == 'F' then
                   if c.cls == "err" && isNew tag then none
                   else some (viol "callback-wrong-reply" s!"unserialisable request {tag} completed with {c.cls}" op)
+                else if i.kind == 'X' then
+                  -- no route: completed by the issuing call itself, with ErrorNoService
+                  if c.cls == "noservice" && isNew tag then none
+                  else some (viol "callback-wrong-reply" s!"unexpected no-route completion {c.cls} of {tag}" op)
                 else if c.cls == "timeout" then
                   if opk != "adv" then some (viol "timeout-before-deadline" s!"timeout of {tag} outside an expiry scan" op)
                   else if !(c.t > i.t0 + reqTimeout) then some (viol "timeout-before-deadline" s!"request {tag} issued at {i.t0} timed out at {c.t}" op)
@@ -469,9 +494,9 @@ def specStep (st : SS) (line : String) : SS × String :=
           if !unknownNew.isEmpty then some (viol "pending-residue" s!"unserialisable request {n.tag}: no completion and entry {unknownNew} left in the table" op)
           else some (viol "never-completed" s!"unserialisable request {n.tag} was never completed" op)
         else none)
-      let xMissing : Option String :=
-        if opk == "noroute" && kvNat ws "cb" == some 1 && !cbs.any (·.tag == "x") then
-          some (viol "never-completed" "request without a routable target was not completed with ErrorNoService" op) else none
+      let xMissing : Option String := firstSome (newInsts.map fun n =>
+        if n.kind == 'X' && !(getInst insts n.tag).any (·.cbSeen) then
+          some (viol "never-completed" s!"request {n.tag} without a routable target was not completed with ErrorNoService" op) else none)
       -- 5. the table at quiescence
       let pendViol : Option String := firstSome (pend.map fun id =>
         match insts.filter (fun i => i.id == some id && (i.kind == 'R' || i.kind == 'r')) with
@@ -497,7 +522,10 @@ def specStep (st : SS) (line : String) : SS × String :=
         if ((opk == "req" && (((kv ws "s").getD "") == "N" || ((kv ws "s").getD "") == "n")) || opk == "anotify")
             && sortNat pend != sortNat st.prevPend then
           some (viol "notify-created-pending" s!"a notification changed the pending table {st.prevPend} -> {pend}" op) else none
-      let res := firstSome [badSent, cbViol, serFail, ntfViol, missedAnswer, xMissing, pendViol, lostViol]
+      -- after a reply of an unregistered type: a missing / repeated / wrong-class completion of the request it answers is D22's signature
+      let d22 (v : Option String) : Option String :=
+        if badType then v.map (fun x => x.replace "VIOLATION C01/" "VIOLATION C01/undecodable-reply-crashes-requester was:") else v
+      let res := firstSome [badSent, d22 cbViol, serFail, ntfViol, d22 missedAnswer, xMissing, pendViol, lostViol]
       ({ now := now, insts := insts, prevPend := pend, pans := pans, floods := floods, poisoned := res.isSome }, res.getD "ok")
     | none => (st, "ok")
   | _ => (st, "bad-line")
